@@ -187,9 +187,9 @@ Section Partition.
     match dst with None => piece | Some d => d ++ piece end.
 
   (* the inner "while (dst == nullptr || dst->length() < length)" loop for one target partition.
-     [fixed = false] is the pinned code; [fixed = true] adds the one-line guard
-        if (partitionid >= numpartitions()) { if (dst == nullptr) dst = getitem_nothing(); break; }
-     at the top of the loop body. *)
+     [fixed = false] is the code as pinned (before the fix: commit); [fixed = true] is the code with the guard
+        if (partitionid >= numpartitions()) { if (dst == nullptr) dst = partitions_[0]->getitem_range_nowrap(0, 0); break; }
+     at the top of the loop body (the current tree). *)
   Fixpoint fill (fixed : bool) (fuel : nat) (parts : list (list A)) (length : Z)
            (dst : option (list A)) (pid index : Z) : res (list A * Z * Z) :=
     match fuel with
